@@ -240,10 +240,36 @@ func (tc *travCollector) collect(sc travScope) *travReads {
 		}
 	}
 
+	// inPanic: the call is (part of) the argument of a panic(...): the node is only described in a
+	// crash message there, which is not a use of its parts by this code
+	inPanic := func(call *ast.CallExpr) bool {
+		isPanic := func(c *ast.CallExpr) bool {
+			if id, ok := ast.Unparen(c.Fun).(*ast.Ident); ok {
+				if b, ok := info.Uses[id].(*types.Builtin); ok && b.Name() == "panic" {
+					return true
+				}
+			}
+			return false
+		}
+		if isPanic(call) {
+			return true
+		}
+		for i := len(stack) - 1; i >= 0; i-- {
+			if c, ok := stack[i].(*ast.CallExpr); ok && c != call && isPanic(c) {
+				return true
+			}
+		}
+		return false
+	}
 	handleCall := func(call *ast.CallExpr) {
 		// conversions are transparent
 		if tv, ok := info.Types[call.Fun]; ok && tv.IsType() {
 			return
+		}
+		if inPanic(call) {
+			if callee := CalleeOf(info, call); callee == nil || m.decls[callee] == nil {
+				return
+			}
 		}
 		fun := ast.Unparen(call.Fun)
 		if id, ok := fun.(*ast.Ident); ok {
